@@ -455,3 +455,21 @@ def r16(ctx, R):
         pos = [ast.unparse(t) for t, pol in gs if pol]
         ok = ok and any('get_convergence' in g for g in pos) and len([g for g in pos if 'get_local_error_estimate' in g]) == 1 and len(pos) == 2
     R.check(ok, 'AdaptivityForConvergedCollocationProblems.determine_restart :: the error-estimate restart is the else-arm of the complete non-convergence test', w, 'if converged: if restart_at_maxiter and residual > restol and not e_tol_converged: .. elif estimate > e_tol: restart = True', found)
+
+
+@rule('C09', 'C09.R17', 'the step size of the block is set on EVERY level: the loops of the step-size spreaders that compute the new step per level and the loops that write params.dt run over all levels of the step', floor=4)
+def r17(ctx, R):
+    repo = ctx.repo
+    rel = CC + 'spread_step_sizes.py'
+    n = 0
+    for cn in ('SpreadStepSizesBlockwiseNonMPI', 'SpreadStepSizesBlockwiseMPI'):
+        fn = repo.func(rel, f'{cn}.prepare_next_block')
+        w = f'{rel}:{cn}.prepare_next_block'
+        R.fn(w)
+        for l in walk_no_nested(fn):
+            if isinstance(l, ast.For) and any(isinstance(s_, ast.Assign) and ('new_steps[' in ast.unparse(s_.targets[0]) or ast.unparse(s_.targets[0]).endswith('.params.dt')) for s_ in ast.walk(l)):
+                n += 1
+                it = ast.unparse(l.iter)
+                R.check(re.fullmatch(r'range\(len\((S|MS\[spread_from_step\])\.levels\)\)', it) is not None, f'{cn}.prepare_next_block :: loop over ALL levels', w, 'for i in range(len(S.levels))', it)
+    if n < 4:
+        raise AnalysisError(f'C09.R17: only {n} per-level loops found in the step-size spreaders')
